@@ -194,6 +194,7 @@ func (t Table) addRoute(d *RouteDef) error {
 
 func (t Table) weighRoute(d *RouteDef) error {
 	host, path := hostpath(d.Src)
+	host = strings.ToLower(host) // routes are always added lowercase
 
 	if d.Src == "" {
 		return errInvalidPrefix
@@ -237,7 +238,7 @@ func (t Table) delRoute(d *RouteDef) error {
 		}
 
 	case d.Dst == "":
-		r := t.route(hostpath(d.Src))
+		r := t.routeOf(d.Src)
 		if r == nil {
 			return nil
 		}
@@ -251,7 +252,7 @@ func (t Table) delRoute(d *RouteDef) error {
 			return fmt.Errorf("route: invalid target. %s", err)
 		}
 
-		r := t.route(hostpath(d.Src))
+		r := t.routeOf(d.Src)
 		if r == nil {
 			return nil
 		}
@@ -280,6 +281,13 @@ func (t Table) delRoute(d *RouteDef) error {
 	}
 
 	return nil
+}
+
+// routeOf finds the route for a 'host/path' prefix or returns nil if none
+// exists. The host is matched case-insensitively like in addRoute.
+func (t Table) routeOf(prefix string) *Route {
+	host, path := hostpath(prefix)
+	return t.route(strings.ToLower(host), path)
 }
 
 // route finds the route for host/path or returns nil if none exists.
